@@ -8,7 +8,7 @@ Ltac split_pair t b o :=
   let E := fresh "E" in let H := fresh "Hfst" in
   destruct t as [b o] eqn:E; assert (H : b = fst t) by (rewrite E; reflexivity); clear E.
 
-Lemma admit_is_resync w n b : admit w n b = resync b. Proof. reflexivity. Qed.
+Lemma admit_is_resync w n b : admit_cmd w n b = resync b. Proof. reflexivity. Qed.
 
 Lemma admit_set_ok w m b uidc st b1 o1 sl :
   admit_set w m b uidc st = Ok (b1, o1, sl) -> b1 = fst (resync b).
@@ -402,3 +402,28 @@ Qed.
 
 Theorem reachable_inv a b c ops : winv (fst (run (init_world a b c) ops)).
 Proof. apply run_inv. apply init_inv. Qed.
+
+(* ------------------------------------------------------------------ consequences used by C01 *)
+(* after the gate and the resync of a FETCH/STORE/SEARCH the issuer's replayed view IS the server's
+   list: the sequence numbers the command is about to accept denote the same UIDs on both sides *)
+Lemma synced_after_admit b s :
+  boxinv b ->
+  let b1 := fst (resync (fst (flush b s))) in
+  all_s (fun c => c_view c = uids b1) b1 s.
+Proof.
+  intros Hb b1 c Hin.
+  assert (H0 : boxinv (fst (flush b s))) by (apply flush_inv; exact Hb).
+  assert (C0 : all_s (fun c => c_pend c = []) (fst (flush b s)) s) by (apply flush_all_clean; apply Hb).
+  assert (H1 : boxinv b1) by (apply resync_inv; exact H0).
+  pose proof (resync_neutral _ s C0 c Hin) as Hn.
+  destruct (binv_in b1 s c (proj1 H1) Hin) as [_ [Ha _]].
+  symmetry. apply neutral_view with (c_pend c); trivial.
+Qed.
+
+(* after NOOP / CHECK / DONE / IDLE (anything ending in a flush) view = server list, queue empty *)
+Lemma synced_after_flush b s :
+  boxinv b -> all_s (fun c => c_pend c = [] /\ c_view c = uids (fst (flush b s))) (fst (flush b s)) s.
+Proof.
+  intros Hb c Hin. destruct (flush_clean b s c (proj1 Hb) Hin) as [H1 H2]. split; [exact H1|].
+  rewrite H2. unfold uids. destruct (flush_msgs b s) as [M _]. rewrite M. reflexivity.
+Qed.
